@@ -36,6 +36,29 @@ let op_of (s : string) : op =
   | ["u"; n] -> OUnset (bytes_of_string n)
   | _ -> failwith "op"
 
+let obj_of = function
+  | "req" -> Req | "bereq" -> Bereq | "beresp" -> Beresp | "obj" -> Obj | "resp" -> Resp
+  | _ -> failwith "object"
+
+(* ops on several objects:  g OBJ.T | s OBJ.T V | a OBJ.N V | u OBJ.T | d DST<SRC | @SCOPE (no model effect) *)
+let split_obj (s : string) : obj * string =
+  match String.index_opt s '.' with
+  | Some i -> obj_of (String.sub s 0 i), String.sub s (i+1) (String.length s - i - 1)
+  | None -> failwith "object prefix"
+
+let mop_of (s : string) : mop option =
+  match split_on ' ' s with
+  | ["g"; t] -> let (o, n) = split_obj t in Some (MOp (o, OGet (bytes_of_string n)))
+  | ["s"; t; v] -> let (o, n) = split_obj t in Some (MOp (o, OSet (bytes_of_string n, val_of v)))
+  | ["a"; t; v] -> let (o, n) = split_obj t in Some (MOp (o, OAdd (bytes_of_string n, val_of v)))
+  | ["u"; t] -> let (o, n) = split_obj t in Some (MOp (o, OUnset (bytes_of_string n)))
+  | ["d"; x] -> (match String.split_on_char '<' x with
+                 | [d; s] -> Some (MDerive (obj_of d, obj_of s))
+                 | _ -> failwith "derive")
+  | [x] when String.length x > 0 && x.[0] = '@' -> None
+  | [] -> None
+  | _ -> failwith "mop"
+
 let unhex s = bytes_of_hex (if String.length s >= 1 && s.[0] = '=' then String.sub s 1 (String.length s - 1) else s)
 
 (* requests:  hdr <req|resp> <op>;<op>;...   |  field get|unset|set <subject> <key> [<value>] *)
@@ -53,6 +76,25 @@ let handle (req : string) : string =
           let ops = List.map op_of (split_on ';' (String.sub rest (j+1) (String.length rest - j - 1))) in
           let (_, outs) = run kd st0 ops in
           String.concat " " (List.map show_obs outs))
+     | "hdrmulti" ->
+       (* <pre-ops on req> | <ops> : the pre-ops run on req, then bereq is derived from req and the
+          response objects start empty (what TestProcessInit does), then the ops *)
+       let pre, ops = (match String.index_opt rest '|' with
+         | Some j -> String.sub rest 0 j, String.sub rest (j+1) (String.length rest - j - 1)
+         | None -> failwith "bar") in
+       let pre_ops = List.filter_map mop_of (split_on ';' pre) in
+       let ops_l = List.filter (fun x -> String.trim x <> "") (split_on ';' ops) in
+       let (m1, o1) = mrun mst0 pre_ops in
+       let (m2, _) = mrun m1 [MDerive (Bereq, Req)] in
+       let mops = List.map mop_of ops_l in
+       let (_, o2) = mrun m2 (List.filter_map (fun x -> x) mops) in
+       (* scope switches reply "ok" on the implementation side *)
+       let rec weave ms os = (match ms, os with
+         | [], _ -> []
+         | None :: t, _ -> "ok" :: weave t os
+         | Some _ :: t, o :: os' -> show_obs o :: weave t os'
+         | Some _ :: _, [] -> failwith "weave") in
+       String.concat " " (List.map show_obs o1 @ ["|"] @ weave mops o2)
      | "field" ->
        (match split_on ' ' rest with
         | ["get"; s; k] -> show_rd (get_field (unhex s) (unhex k))
